@@ -98,11 +98,13 @@ Definition adesc_eqb (a b : adesc) : bool :=
    - a decision is returned (no panic);
    - when the reader type is declared assignable from the writer type, every sample of the
      writer type decodes with the reader type into the writer's values for the common members
-     and defaults for the rest. *)
+     and defaults for the rest;
+   - conversely, a legitimate evolution inside the covered family (`evolves`) is accepted. *)
 Definition C39_oracle_ok (c : C39_case) : bool :=
   match c_op c, c_out c with
   | Ev v e tc t1 t2 x, OEv a c1 c2 s =>
     (if adesc_eqb t1 t2 then resb_eqb a (Ok true) else true) &&
+    (if flat_desc t1 && flat_desc t2 && evolves tc t1 t2 then resb_eqb a (Ok true) else true) &&
     (if wf_ty (ty_of t1) && wf_ty (ty_of t2) && wt (ty_of t2) x then
        match a with
        | Ok true =>
